@@ -371,7 +371,7 @@ CORE_HEADER = (
 )
 
 
-def build_core(repo, external=(), canary=None, with_witness=True):
+def build_core(repo, external=(), canary=None, with_witness=True, boost=False):
     """external: names of functions under contract whose bodies are NOT verified in this file
     (marked external_body; used by the lemma job).  canary: (fn, section) -> use the deliberately
     wrong contract `section` for fn (must-fail run)."""
@@ -379,6 +379,9 @@ def build_core(repo, external=(), canary=None, with_witness=True):
     log = b.log
     sc = sections(os.path.join(VERIF, "contracts/u1.vrs"))
     sc.update(sections(os.path.join(VERIF, "contracts/u2.vrs")))
+    if boost:
+        for key in ("signed_shift", "open", "free_variables", "step"):
+            sc[key + ".first"] = sc[key + ".first"] + "    reveal_with_fuel(view, 3);\n    reveal_with_fuel(kids_of, 3);\n"
     if canary:
         sc = dict(sc)
         sc[canary[0] + ".contract"] = sc[canary[1]]
@@ -480,17 +483,31 @@ def expr_closure_contract(w, regex, head, nth=1):
 def weave_reassoc(w, sc, key):
     w.contract(sc[key + ".contract"], ret="r")
     w.body_first(sc[key + ".first"])
-    expr_closure_contract(w, r"\.map\(\|domain\| ", sc[key + ".closure.lambda"])
-    expr_closure_contract(w, r"\.map\(\|annotation\| ", sc[key + ".closure.let"])
-    w.before(r"^    if let Some\(.*\) = acc \{$", sc[key + ".bottom"])
-    for n in range(1, w.count(r"^\s*let left = Term \{$") + 1):
-        w.after(r"^\s*let left = Term \{$", sc[key + ".left.post"], nth=n)
+    # closures inside Option::map need their own contract; an equivalent `match` needs none
+    if w.count(r"\.map\(\|domain\| "):
+        expr_closure_contract(w, r"\.map\(\|domain\| ", sc[key + ".closure.lambda"])
+    if w.count(r"\.map\(\|annotation\| "):
+        expr_closure_contract(w, r"\.map\(\|annotation\| ", sc[key + ".closure.let"])
+    # the local holding the rebuilt non-chain node; the hint follows the statement that defines it
+    i = w.find(r"^    let \w+ = match &term\.variant \{$")
+    red = re.match(r"^    let (\w+) = ", w.lines[i]).group(1)
+    w.after(r"^    let \w+ = match &term\.variant \{$", sc[key + ".bottom"].replace("$REDUCED", red))
+    # the extended accumulator of the grouped-last-operand branches (absent in the pre-fix code)
+    rx = r"^\s+let \w+ = Term \{$"
+    for n in range(1, w.count(rx) + 1):
+        i = w.find(rx, n)
+        name = re.match(r"^\s*let (\w+) = ", w.lines[i]).group(1)
+        w.after(rx, sc[key + ".left.post"].replace("$LEFT", name), nth=n)
 
 
-def build_parser(repo, external=(), canary=None, with_witness=True):
+def build_parser(repo, external=(), canary=None, with_witness=True, boost=False):
     b = Build("parser")
     log = b.log
     sc = sections(os.path.join(VERIF, "contracts/u4.vrs"))
+    if boost:
+        # fallback proof mode (used only after a failure): deeper unfolding of the view functions
+        for key in ("apps", "muls", "adds"):
+            sc[key + ".first"] = sc["apps.first"] + "    reveal_with_fuel(pview, 3);\n    reveal_with_fuel(pkids_of, 3);\n"
     if canary:
         sc = dict(sc)
         key = {"reassociate_applications": "apps", "reassociate_products_and_quotients": "muls", "reassociate_sums_and_differences": "adds"}[canary[0]]
